@@ -12,7 +12,9 @@ from ..astutil import (ERROR_CLASSES, Locals, anon, call_name, cfg_of, construct
 from ..jinja_interp import expr_text
 from ..cfg import CFG, walk_own
 from ..core import PKG, Report
-from .registries import _bind_call, _inline_locals, check_module_files, check_registries, receiver_classes
+from .registries import (ATTR_REGISTRIES, _bind_call, _Compat, _inline_locals, _reg_of, _registry_stores, check_module_files, check_registries,
+                         membership_tests, receiver_classes, registry_scope, same_key)
+from ..astutil import terminals
 
 LEVEL = ("error discipline and accounting over all paths: no value whose static type includes a ParseError/PropertyError is "
          "discarded; every path through one iteration of a loop over items of the document (operations, component schemas, response "
@@ -24,7 +26,8 @@ LEVEL = ("error discipline and accounting over all paths: no value whose static 
          "(accumulator -> result of from_data -> GeneratorData, no filtered copy, no removal); the method list equals the Operation "
          "fields of PathItem; one iteration over enumerated items reads its own item only, never another entry of the collection it "
          "goes through; the mapping handed to GeneratorData.from_dict is, entire, what the loading call returned; an object that carries "
-         "diagnostics (a field declared list of errors) copied field by field or evolved keeps all of them.  Comprehensions over "
+         "diagnostics (a field declared list of errors) copied field by field or evolved keeps all of them; a function that registers "
+         "under a key of a class registry and asks whether the key is taken ends in an error on every path on which it is.  Comprehensions over "
          "document items are read as the loops they abbreviate (a per-item local function / private helper as the loop body); a "
          "generator's `yield` hands a value on like `return`.")
 
@@ -66,6 +69,11 @@ def run(rep: Report, ctx: Any) -> str:
                        "a list of errors) is built from the fields of an existing object of that class - C(f=S.f, g=copy(S.g), ...) - or "
                        "derived from one with that field replaced - evolve(S, errors=...) -, the new list of diagnostics contains all of "
                        "the old one")
+
+    rep.rule("R07.12", "a key that is taken is never silently shared: in a function that registers an artefact under key K of a registry "
+                       "of classes (classes_by_name / classes_by_reference) and asks whether K is taken (K in registry, registry.get(K), "
+                       "a private helper that asks), every path on which K is taken ends - from the question on - in an error return or "
+                       "a raise, whatever else is found out about the entry that holds the key")
 
     # ---- R07.1 -------------------------------------------------------------------------------------------------------
     returns_err: dict[str, list[Any]] = {}
@@ -313,6 +321,32 @@ def run(rep: Report, ctx: Any) -> str:
     rep.check(why_in is None, "R07.10", "GeneratorData.from_dict::document-untouched", "from_dict re-binds or prunes the document it was handed "
               "before validating it", where(gd, gd.node), lhs=why_in, rhs=f"`{doc_param}` is read, never re-bound, nothing removed from it")
 
+    # ---- R07.12 -----------------------------------------------------------------------------------------------------------------------
+    n_present = 0
+    # keyed by who registers (the class of the builder, or the module of a plain function) and where: moving the registration into
+    # a private helper of the same class / module, or spelling the key another way, leaves the key of the finding alone
+    verdicts: dict[str, list[tuple[Any, ast.AST, list[ast.AST]]]] = {}
+    for f in registry_scope(ix):
+        seen_keys: list[tuple[str, ast.AST]] = []
+        for st, reg, key, kind, value in _registry_stores(f, ATTR_REGISTRIES):
+            if any(r == reg and same_key(k, key, f.node) for r, k in seen_keys):
+                continue
+            seen_keys.append((reg, key))
+            asked = [t for t, k in membership_tests(f, reg, ix) if same_key(k, key, f.node)]
+            if not asked:
+                continue  # whether the key is present is not asked here: R07.4 looks for the question where the function is called from
+            n_present += 1
+            owner = f.module.name[len(PKG) + 1:] + (f".{f.cls.name}" if f.cls is not None else "")
+            verdicts.setdefault(f"{owner}::taken-key-diagnosed {reg}", []).append((f, st, _silent_when_present(ix, f, reg, key, asked)))
+    for ckey, vs in sorted(verdicts.items()):
+        f, st, bad = next((v for v in vs if v[2]), vs[0])
+        rep.check(not bad, "R07.12", ckey,
+                  f"{short(f)} registers an artefact under a key of the registry and asks whether the key is taken, yet with the key taken "
+                  "it can still return something other than an error: a second document item that derives the same key is merged "
+                  "into (or replaces) the first one and no diagnostic names either", where(f, bad[0] if bad else st),
+                  lhs=[f"{norm(b)[:60]} @ line {getattr(b, 'lineno', 0)}" for b in bad], rhs="with the key present, every path from the question on ends in an error return / raise")
+    rep.floor("registering_functions_that_ask", n_present, 1)
+
     # ---- R07.11 -----------------------------------------------------------------------------------------------------------------------
     n_copies = 0
     carriers = _diagnostic_carriers(ix)
@@ -415,6 +449,73 @@ def run(rep: Report, ctx: Any) -> str:
               f"the method list {meth} differs from the Operation fields of PathItem {ops}", where(fd, fd.node), lhs=meth, rhs=ops)
     rep.not_decided.append("the census itself; response media types other than the first supported one are ignored by design")
     return LEVEL
+
+
+# ---- a key that is taken ---------------------------------------------------------------------------------------------------------------
+class _Asks(_Compat):
+    """registries._Compat (evaluation of a function's tests with the registered entry present), where a private helper takes part
+    in the decision as soon as it asks the registry anything (membership, a lookup) - not only when it asks for the entry's kind"""
+
+    def asks(self) -> bool:
+        if super().asks():
+            return True
+        for n in _own_walk(self.fn):
+            if isinstance(n, ast.Compare) and len(n.ops) == 1 and isinstance(n.ops[0], (ast.In, ast.NotIn)) and \
+                    _reg_of(n.comparators[0], ATTR_REGISTRIES, self.aliases):
+                return True
+            if self.is_existing(n):
+                return True
+        return False
+
+    def helper(self, e: ast.AST) -> "_Compat | None":
+        hops = 0
+        while isinstance(e, ast.Name) and e.id in self.once and hops < 3:
+            e, hops = self.once[e.id], hops + 1
+        h = self.helpers.get(call_name(e).rsplit(".", 1)[-1]) if isinstance(e, ast.Call) else None
+        if h is None:
+            return None
+        if h.name not in self._sub:
+            self._sub[h.name] = _Asks(self.ix, h, self.cname, self.depth - 1)
+        sub = self._sub[h.name]
+        return sub if sub.asks() else None
+
+
+class _Taken(_Asks):
+    """_Asks with the membership tests of the function itself read by registry and key: `K in reg` holds for the key at hand, a
+    test about another key or another registry is not decided"""
+
+    def __init__(self, ix: Any, g: Any, reg: str, key: ast.AST) -> None:
+        super().__init__(ix, g, g.cls.name if g.cls is not None else "")
+        self.reg, self.key = reg, key
+
+    def ev(self, t: ast.expr, own: bool, differ: bool, depth: int = 3) -> "bool | None":
+        if isinstance(t, ast.Compare) and len(t.ops) == 1 and isinstance(t.ops[0], (ast.In, ast.NotIn)):
+            r = _reg_of(t.comparators[0], ATTR_REGISTRIES, self.aliases)
+            if r:
+                return isinstance(t.ops[0], ast.In) if r == self.reg and same_key(t.left, self.key, self.fn) else None
+        return super().ev(t, own, differ, depth)
+
+
+def _silent_when_present(ix: Any, f: Any, reg: str, key: ast.AST, asked: list[ast.stmt]) -> list[ast.AST]:
+    """the statements that end f with something other than an error although `key` is present in `reg`: reachable from where the
+    question is asked, under every assumption about what else is true of the entry (its kind, its content)"""
+    cp = _Taken(ix, f, reg, key)
+    cfg = CFG(f.node)
+    after: set[object] = set()
+    for st in asked:
+        after |= cfg.reachable_from(st)
+    bad: list[ast.AST] = []
+    for own in (False, True):
+        for differ in (False, True):
+            errs = error_names(f.node) | {name for name, v in cp.once.items() if isinstance(v, ast.Call) and cp.helper(v) is not None
+                                          and cp.helper(v).results(own, differ) <= {"E"}}
+            terms, falls = terminals(f.node.body, lambda t, own=own, differ=differ: cp.ev(t, own, differ))
+            for t in sorted(terms, key=lambda n: n.lineno):
+                if t in after and not (isinstance(t, ast.Raise) or returns_error(t, errs)) and t not in bad:
+                    bad.append(t)
+            if falls and f.node not in bad:
+                bad.append(f.node)
+    return bad
 
 
 # ---- copies of objects that carry diagnostics --------------------------------------------------------------------------------------------
